@@ -606,4 +606,42 @@ def sizeStats (ps : List PPack) (t : BlobType) : SizeStats :=
     repack := sumBy (fun p => if p.todo = .repack then p.info.usedSize + p.info.unusedSize else 0) l,
     repackrm := sumBy (fun p => if p.todo = .repack then p.info.unusedSize else 0) l }
 
+/-! ### `find_used_blobs` (what becomes `used_ids`) -/
+
+inductive TNodeType | file | dir | other
+deriving DecidableEq, Repr, Inhabited
+
+/-- A tree node as `find_used_blobs` looks at it: `node_type`, the size RECORDED in `meta.size` (the size `stat` reported when the
+node was created — 0 for `backup -` / `--stdin-command` nodes and `/proc`-like files, stale for files written during the backup;
+NOT the length of the content), `content`, `subtree`. -/
+structure TNode where
+  type : TNodeType
+  size : Nat := 0
+  content : Option (List Nat) := none
+  subtree : Option Nat := none
+deriving DecidableEq, Repr, Inhabited
+
+/-- one iteration of `for node in tree.nodes { match node.node_type … }`: a file node contributes ALL its content ids as data keys
+(`node.content.iter().flatten()`; `meta.size` is not looked at), a dir node its subtree as tree key (`subtree.unwrap()`), other
+node types nothing. -/
+def nodeUsed (n : TNode) : List Key :=
+  match n.type with
+  | .file => (n.content.getD []).map (fun c => (BlobType.data, c))
+  | .dir => match n.subtree with
+    | some t => [(BlobType.tree, t)]
+    | none => []
+  | .other => []
+
+/-- `find_used_blobs`: the key set starts with the root trees of the snapshots; `streamed` is what `TreeStreamerOnce` yields
+(every tree reachable from the roots, once, in completion order). -/
+def findUsed (snapTrees : List Nat) (streamed : List (Nat × List TNode)) : List Key :=
+  snapTrees.map (fun t => (BlobType.tree, t)) ++ streamed.flatMap (fun x => x.2.flatMap nodeUsed)
+
+/-- NOT the code: `find_used_blobs` with the arm `NodeType::File if node.meta.size > 0` (seeded change C02-8). -/
+def nodeUsedSizeGuard (n : TNode) : List Key :=
+  if n.type = .file ∧ n.size = 0 then [] else nodeUsed n
+
+def findUsedSizeGuard (snapTrees : List Nat) (streamed : List (Nat × List TNode)) : List Key :=
+  snapTrees.map (fun t => (BlobType.tree, t)) ++ streamed.flatMap (fun x => x.2.flatMap nodeUsedSizeGuard)
+
 end Rustic.Prune
